@@ -989,6 +989,71 @@ def nontrivial(case: Case, out: list[str]) -> bool:
     return last >= 2 and multi
 
 
+def shape_mismatch_witness(ctx: Check):
+    """Directed witness (seed C28-7): a field produced at 16 bits, tapped by an external node at a narrower width and then
+    delivered at 16 bits. The builder either rejects the shape (ValueError) or must deliver every item intact."""
+    from amaranth import Elaboratable, unsigned
+    from transactron import Method, TModule
+    from transactron.lib.pipeline import PipelineBuilder
+    from transactron.testing import SimpleTestCircuit
+    from transactron.testing.simulator import PysimSimulator
+    from transactron.utils.dependencies import DependencyContext, DependencyManager
+
+    for narrow in (8, 3, 15):
+        class Dut(Elaboratable):
+            def __init__(self):
+                self.write = Method(i=[("x", unsigned(16))])
+                self.tap = Method(o=[("x", unsigned(narrow))])
+                self.read = Method(o=[("x", unsigned(16))])
+
+            def elaborate(self, platform):
+                m = TModule()
+                m.submodules.pipeline = pb = PipelineBuilder()
+                pb.add_external(self.write)
+                pb.add_external(self.tap)
+                pb.add_external(self.read)
+                return m
+
+        values = [0x0012, 0x1234, 0xBEEF, 0xFF00, 0x8001]
+        got: list[int] = []
+        with DependencyContext(DependencyManager()):
+            circ = SimpleTestCircuit(Dut())
+            try:
+                sim = PysimSimulator(circ, max_cycles=400)
+            except ValueError:
+                ctx.count("shape_mismatch_rejected", 1)
+                continue
+
+            async def writer(sim):
+                for v in values:
+                    await circ.write.call(sim, x=v)
+
+            async def tapper(sim):
+                for _ in values:
+                    await circ.tap.call(sim)
+
+            async def reader(sim):
+                for _ in values:
+                    got.append(int((await circ.read.call(sim)).x))
+
+            sim.add_testbench(writer)
+            sim.add_testbench(tapper)
+            sim.add_testbench(reader)
+            try:
+                sim.run()
+            except Exception as e:  # noqa: BLE001
+                got.append(-1)
+                ctx.note(f"shape-mismatch witness: simulation raised {type(e).__name__}")
+        ctx.count("shape_mismatch_accepted", 1)
+        if got != values:
+            ctx.violation(
+                f"pipeline write(x:16) -> external tap(x:{narrow}) -> read(x:16) is accepted by the builder but items leave "
+                f"with corrupted fields: delivered {[hex(g) for g in got]}, written {[hex(v) for v in values]}",
+                {"kind": "shape_mismatch_witness", "narrow": narrow, "values": values, "delivered": got},
+            )
+
+
+
 def run(ctx: Check):
     ctx.rule = (
         "cases = (pipeline shape accepted by the builder, history of call attempts / stage readiness / clears); the real "
@@ -1016,6 +1081,7 @@ def run(ctx: Check):
     ctx.count("clears_run", sum(1 for c in cases for o in _results[c.key()] if o.startswith("c=1")))
     ctx.note("trace inclusion: the op lines carry the schedule the real circuit chose; the Lean driver rejects a line whose "
              "label is not enabled in the specification automaton")
+    shape_mismatch_witness(ctx)
     lockstep(ctx, "pipeline-trace-inclusion", "C28", cases, impl, monitor, more_cases, nontrivial, procs=1)
 
 
